@@ -1,12 +1,16 @@
 import CTV.Basic.Proto
 import CTV.Model.Client
+import CTV.Sha256
 /-! ctvmodel C12: replays the lines of the C12 harness on the model.
 
   sth <verifier> <kind> <R|-> <S|-> <prim> <status> <jsonok> <size> <ts> <root> <sig>
         => ok <size> <ts> <root> <hash> <alg> <sig> | rsperr <status> | err | panic
-  add <verifier> <kind> <keyid|-> <R|-> <S|-> <prim> <leaf: ok <etype> <cert> <ikh> <tbs> | err | panic> <n> {<status> <jsonok> <version> <id> <ts> <extok> <ext> <sig>}*
+  add <verifier> <kind> <keyid|-> <R|-> <S|-> <prim> <pre> <k> {<raw> <fatal> <tbs> <spki> <preissuer>}*k <stripped-tbs|none> <n> {<status> <jsonok> <version> <id> <ts> <extok> <ext> <sig>}*n
+        (the first k ≤ 3 certificates of the submitted chain as the X.509 parser sees them; the entry is computed by the model:
+         SHA-256 here, the stripped TBSCertificate from the harness' own extension removal)
         => ok <version> <logid> <ts> <ext> <hash> <alg> <sig> | rsperr <status> | err | panic
   get <status> <jsonok>                                   => ok | rsperr <status>
+  nores <method>                                          => err     (no response was received)
   roots <status> <jsonok> <n> {<b64ok>}*                  => ok | rsperr <status>
   ents <start> <end> <status> <jsonok> <n> {<leaf> <extra> <fatal>}*  => ok <n> {<entry>}* | rsperr <status> | err
   rle <leaf> <extra>                                      => ok <entry> | err
@@ -39,7 +43,7 @@ def showDS (ds : DigitallySigned) : String := s!"{ds.hash} {ds.sigAlg} {hexOrDas
 
 def showRes {α : Type} (f : α → String) : Res α → String
   | .ok v => "ok" ++ (let s := f v; if s = "" then "" else " " ++ s)
-  | .rspErr st => s!"rsperr {st}"
+  | .rspErr st _ => s!"rsperr {st}"
   | .err => "err"
   | .panic => "panic"
 
@@ -57,18 +61,31 @@ def parseSctRsps : Nat → List String → Option (List (Rsp SctBody) × List St
     match parseNat? st, parseBool? jok, parseNat? ver, fromHex id, parseNat? ts, parseBool? xok, fromHex ext, fromHex sg, parseSctRsps n rest with
     | some st, some jok, some ver, some id, some ts, some xok, some ext, some sg, some (rs, rest') =>
       let body : Option SctBody := if jok then some ⟨ver, id, UInt64.ofNat ts, if xok then some ext else none, sg⟩ else none
-      some (⟨st, body⟩ :: rs, rest')
+      some (⟨st, [], body⟩ :: rs, rest')
     | _, _, _, _, _, _, _, _, _ => none
   | _, _ => none
 
+def parseChain : Nat → List String → Option (List ChainCert × List String)
+  | 0, rest => some ([], rest)
+  | n+1, raw :: fatal :: tbs :: spki :: pi :: rest =>
+    match fromHex raw, parseBool? fatal, fromHex tbs, fromHex spki, parseBool? pi, parseChain n rest with
+    | some raw, some fatal, some tbs, some spki, some pi, some (cs, rest') => some (⟨raw, fatal, tbs, spki, pi⟩ :: cs, rest')
+    | _, _, _, _, _, _ => none
+  | _, _ => none
+
+/-- `<pre> <k> {cert}*k <stripped|none>` → the model's leaf for the submission -/
 def parseLeafBuild : List String → Option (LeafBuild × List String)
-  | "ok" :: et :: cert :: ikh :: tbs :: rest =>
-    match parseNat? et, fromHex cert, fromHex ikh, fromHex tbs with
-    | some et, some cert, some ikh, some tbs =>
-      some (.ok (if et = 0 then .x509 cert else if et = 1 then .precert ikh tbs else .other et), rest)
-    | _, _, _, _ => none
-  | "err" :: rest => some (.err, rest)
-  | "panic" :: rest => some (.panic, rest)
+  | pre :: k :: rest =>
+    match parseBool? pre, parseNat? k with
+    | some pre, some k =>
+      match parseChain k rest with
+      | some (chain, stripped :: rest') =>
+        let st : Option (Option Bytes) := if stripped = "none" then some none else (fromHex stripped).map some
+        match st with
+        | some st => some (leafFromRawChain ⟨Sha256.hash, fun _ _ => st⟩ chain pre, rest')
+        | none => none
+      | _ => none
+    | _, _ => none
   | _ => none
 
 def parseEntries : Nat → List String → Option (List EntryIn)
@@ -114,7 +131,7 @@ where go : List String → String
       | some m => m
       | none =>
         showRes (fun (h : STH) => s!"{h.treeSize.toNat} {h.timestamp.toNat} {hexOrDash h.root} {showDS h.sig}")
-          (getSTH (prims pb) (if vf then some key else none) ⟨st, body⟩)
+          (getSTH (prims pb) (if vf then some key else none) ⟨st, [], body⟩)
     | _, _, _, _, _, _, _, _, _, _ => "bad-op"
   | "add" :: vf :: k :: kid :: r :: s :: pb :: rest =>
     match parseBool? vf, optInt r, optInt s, parseBool? pb, parseLeafBuild rest with
@@ -136,16 +153,17 @@ where go : List String → String
               (addChain (prims pb) (if vf then some key else none) keyID leaf rsps)
         | _ => "bad-op"
     | _, _, _, _, _ => "bad-op"
+  | ["nores", _] => "err"      -- the transport failed: no response, hence a bare error (jsonclient returns the transport's error)
   | ["get", st, jok] =>
     match parseNat? st, parseBool? jok with
-    | some st, some jok => showRes (fun (_ : Unit) => "") (plainGet ⟨st, if jok then some () else none⟩)
+    | some st, some jok => showRes (fun (_ : Unit) => "") (plainGet ⟨st, [], if jok then some () else none⟩)
     | _, _ => "bad-op"
   | "roots" :: st :: jok :: n :: rest =>
     match parseNat? st, parseBool? jok, parseNat? n with
     | some st, some jok, some n =>
       match parseBools n rest with
       | some bs => showRes (fun (_ : List Bytes) => "")
-          (getRoots ⟨st, if jok then some (bs.map fun b => if b then some [] else none) else none⟩)
+          (getRoots ⟨st, [], if jok then some (bs.map fun b => if b then some [] else none) else none⟩)
       | none => "bad-op"
     | _, _, _ => "bad-op"
   | "ents" :: sS :: eS :: st :: jok :: n :: rest =>
@@ -153,7 +171,7 @@ where go : List String → String
     | some sS, some eS, some st, some jok, some n =>
       match parseEntries n rest with
       | some es => showRes (fun (rs : List RawEntry) => joinSp (toString rs.length :: rs.map showEntry))
-          (getEntries sS eS ⟨st, if jok then some es else none⟩)
+          (getEntries sS eS ⟨st, [], if jok then some es else none⟩)
       | none => "bad-op"
     | _, _, _, _, _ => "bad-op"
   | ["rle", l, x] =>
